@@ -248,6 +248,9 @@ namespace hist
             return false;
         }
         virtual void unwind_stale(size_t) {}
+        // how the next unwind is carried out: 0 directly, 1 by the destructor of a
+        // memory_stack_raii_unwind, 2 by its unwind() member (generated per operation)
+        virtual void set_unwind_mode(unsigned) {}
         virtual bool next_iteration()
         {
             return false;
